@@ -25,19 +25,24 @@ use tachys::{reactive_graph::Suspend, renderer::dom::{self as ndom, Dom}};
 use vsexp::{Lst, Num, Sexp};
 
 #[derive(Clone, Debug)]
-enum L {
+pub(crate) enum L {
+    /// a fragment of 0..3 views (op 9)
+    Frag(Vec<L>),
+    /// "no fallback given" (op 10, only as the fallback of a Show)
+    Nothing,
     Static(i64),
     Dyn(i64, E),
     Elem(Vec<(i64, i64, E)>, Vec<L>),
     Show(i64, E, Arc<L>, Arc<L>),
     For(i64, bool, usize, Vec<Vec<i64>>, Arc<L>),
-    Susp(i64, bool, Vec<L>),
+    /// flags: bit 0 Transition, bit 1 no fallback prop
+    Susp(i64, i64, Vec<L>),
     ResAwait(i64, usize),
     ResGet(i64, usize),
     Boundary(i64, E, Arc<L>),
 }
 
-fn dec(s: &Sexp) -> L {
+pub(crate) fn dec(s: &Sexp) -> L {
     match s.at(0).num() {
         0 => L::Static(s.at(1).num()),
         1 => L::Dyn(s.at(1).num(), dec_expr(s.at(2))),
@@ -53,17 +58,43 @@ fn dec(s: &Sexp) -> L {
             s.at(4).list().iter().map(|l| l.nums()).collect(),
             Arc::new(dec(s.at(5))),
         ),
-        5 => L::Susp(s.at(1).num(), s.at(2).num() != 0, s.at(3).list().iter().map(dec).collect()),
+        5 => L::Susp(s.at(1).num(), s.at(2).num(), s.at(3).list().iter().map(dec).collect()),
         6 => L::ResAwait(s.at(1).num(), s.at(2).num() as usize),
         7 => L::ResGet(s.at(1).num(), s.at(2).num() as usize),
+        9 => L::Frag(s.at(1).list().iter().map(dec).collect()),
+        10 => L::Nothing,
         _ => L::Boundary(s.at(1).num(), dec_expr(s.at(2)), Arc::new(dec(s.at(3)))),
     }
 }
 
+/// the resource representations (case flag `reskind`): all read the same two ways
 #[derive(Clone)]
-struct Ctx {
-    sigs: Sigs,
-    res: Arc<Vec<LocalResource<i64>>>,
+pub(crate) enum Res {
+    Local(LocalResource<i64>),
+    ArcLocal(ArcLocalResource<i64>),
+    Server(Resource<i64>),
+}
+impl Res {
+    fn get(&self) -> Option<i64> {
+        match self {
+            Res::Local(r) => r.get(),
+            Res::ArcLocal(r) => r.get(),
+            Res::Server(r) => r.get(),
+        }
+    }
+    async fn wait(self) -> i64 {
+        match self {
+            Res::Local(r) => r.await,
+            Res::ArcLocal(r) => r.await,
+            Res::Server(r) => r.await,
+        }
+    }
+}
+
+#[derive(Clone)]
+pub(crate) struct Ctx {
+    pub sigs: Sigs,
+    pub res: Arc<Vec<Res>>,
 }
 
 /// label offset of the futures of resource r
@@ -82,8 +113,10 @@ fn many(ls: &[L], cx: &Ctx) -> AnyView {
     ls.iter().map(|l| mk(l, cx)).collect::<Vec<_>>().into_any()
 }
 
-fn mk(l: &L, cx: &Ctx) -> AnyView {
+pub(crate) fn mk(l: &L, cx: &Ctx) -> AnyView {
     match l {
+        L::Frag(kids) => many(kids, cx),
+        L::Nothing => ().into_any(),
         L::Static(n) => n.to_string().into_any(),
         L::Dyn(lb, e) => {
             let (lb, e, s) = (*lb, e.clone(), cx.sigs.clone());
@@ -118,6 +151,15 @@ fn mk(l: &L, cx: &Ctx) -> AnyView {
         L::Show(_lb, c, a, b) => {
             let (c, s) = (c.clone(), cx.sigs.clone());
             let (a, b, cxa, cxb) = (a.clone(), b.clone(), cx.clone(), cx.clone());
+            if matches!(*b, L::Nothing) {
+                // no `fallback` prop: `ViewFn::default()`
+                return view! {
+                    <Show when={move || eval(&c, &s) != 0}>
+                        {mk(&a, &cxa)}
+                    </Show>
+                }
+                .into_any();
+            }
             view! {
                 <Show when={move || eval(&c, &s) != 0} fallback={move || mk(&b, &cxb)}>
                     {mk(&a, &cxa)}
@@ -153,25 +195,35 @@ fn mk(l: &L, cx: &Ctx) -> AnyView {
                 .into_any()
             }
         }
-        L::Susp(lb, transition, kids) => {
+        L::Susp(lb, flags, kids) => {
             let fb = format!("-{lb}");
             let (kids, cxk) = (kids.clone(), cx.clone());
-            if *transition {
+            let transition = flags & 1 != 0;
+            if flags & 2 != 0 {
+                // no `fallback` prop: `ViewFnOnce::default()`
+                return if transition {
+                    view! { <Transition>{many(&kids, &cxk)}</Transition> }.into_any()
+                } else {
+                    view! { <Suspense>{many(&kids, &cxk)}</Suspense> }.into_any()
+                };
+            }
+            if transition {
                 view! { <Transition fallback={move || fb.clone()}>{many(&kids, &cxk)}</Transition> }.into_any()
             } else {
                 view! { <Suspense fallback={move || fb.clone()}>{many(&kids, &cxk)}</Suspense> }.into_any()
             }
         }
         L::ResAwait(lb, r) => {
-            let (lb, res) = (*lb, cx.res[*r]);
+            let (lb, res) = (*lb, cx.res[*r].clone());
             (move || {
                 log(lb);
-                Suspend::new(async move { res.await.to_string() })
+                let res = res.clone();
+                Suspend::new(async move { res.wait().await.to_string() })
             })
             .into_any()
         }
         L::ResGet(lb, r) => {
-            let (lb, res) = (*lb, cx.res[*r]);
+            let (lb, res) = (*lb, cx.res[*r].clone());
             (move || {
                 log(lb);
                 res.get().unwrap_or(-1).to_string()
@@ -195,15 +247,14 @@ fn mk(l: &L, cx: &Ctx) -> AnyView {
     }
 }
 
-fn make_resources(sources: &[E], sigs: &Sigs) -> Arc<Vec<LocalResource<i64>>> {
+pub(crate) fn make_resources(sources: &[E], sigs: &Sigs, kind: i64) -> Arc<Vec<Res>> {
     Arc::new(
         sources
             .iter()
             .enumerate()
             .map(|(r, e)| {
                 let (e, s) = (e.clone(), sigs.clone());
-                LocalResource::new(move || {
-                    let x = eval(&e, &s);
+                let fetch = move |x: i64| {
                     let rx = new_future(RES + r as i64);
                     async move {
                         if let Some(rx) = rx {
@@ -211,7 +262,15 @@ fn make_resources(sources: &[E], sigs: &Sigs) -> Arc<Vec<LocalResource<i64>>> {
                         }
                         10 * x + r as i64
                     }
-                })
+                };
+                match kind {
+                    1 => {
+                        let (e, s) = (e.clone(), s.clone());
+                        Res::Server(Resource::new(move || eval(&e, &s), fetch))
+                    }
+                    2 => Res::ArcLocal(ArcLocalResource::new(move || fetch(eval(&e, &s)))),
+                    _ => Res::Local(LocalResource::new(move || fetch(eval(&e, &s)))),
+                }
             })
             .collect(),
     )
@@ -230,12 +289,13 @@ pub fn run(c: &Sexp) -> Sexp {
     let sigs: Sigs = Arc::new(c.at(3).list().iter().map(|x| RwSignal::new(x.num())).collect());
     let unmount = c.at(5).at(0).num() != 0;
     let newest_first = c.at(5).at(1).num() != 0;
+    let reskind = c.at(5).at(2).num();
 
     let root = Dom::create_element("div", None);
     let handle = {
         let (tree, sources, sigs) = (tree.clone(), sources.clone(), sigs.clone());
         mount_to_renderer(&root, move || {
-            let res = make_resources(&sources, &sigs);
+            let res = make_resources(&sources, &sigs, reskind);
             mk(&tree, &Ctx { sigs, res })
         })
     };
@@ -311,7 +371,7 @@ pub fn run(c: &Sexp) -> Sexp {
         let h = {
             let (tree, sources, sigs) = (tree.clone(), sources.clone(), sigs.clone());
             mount_to_renderer(&fresh_root, move || {
-                let res = make_resources(&sources, &sigs);
+                let res = make_resources(&sources, &sigs, reskind);
                 mk(&tree, &Ctx { sigs, res })
             })
         };
